@@ -1,5 +1,5 @@
 """C03 - no lost wake-up: a part that can move does move."""
-from .. import engine_line, modelgen
+from .. import core, engine_line, modelgen
 
 SPEC = {
     'level': 'exploration',
@@ -36,6 +36,11 @@ def run(sh):
     from ..modelgen import DECIMAL
     engine_line.run_profile(sh, 'C03', 'blocking', n // 4, MONITORS, nontrivial, prefix='decimal_', overrides=DECIMAL,
                             tag='decimal')
+    # paths of a shared cell whose inputs are closed while their parts are still inside, in front of slow stations
+    for i in sh.share(60 if sh.tier == 'quick' else 2000):
+        seed = core.stable_int(sh.seed, 'C03', 'blocked_paths', i) % (1 << 40)
+        engine_line.run_spec(sh, 'C03', modelgen.generate_blocked_paths(seed, ['prng', 'fifo', 'lifo', 'const'][i % 4]),
+                             MONITORS, nontrivial, prefix='blocked_paths_')
     # one-decimal (cycle, delay) sweep through a delay buffer
     pol = ['prng', 'fifo', 'lifo', 'const']
     for i in sh.share(270 if sh.tier == 'quick' else 810):
